@@ -26,6 +26,11 @@ type Port struct {
 	sendStop  chan struct{}
 	sendError *error
 
+	// Set in the reading end of a pipe. The writing side closes its Chan, so
+	// nothing may be sent to it when such a port ends up as an output port
+	// (for example with ">&0").
+	inputOnly bool
+
 	// Only populated in output ports writing to another command in a pipeline.
 	// When the reading end of the pipe exits, it stores true in readerGone.
 	// This is used to check if an external command killed by SIGPIPE is caused
